@@ -83,7 +83,7 @@ def context(text, r, frag):
 def seams_pass(v, work, stats, cfg):
     """spec/Seams.tla: prev ; [fragment] ; next for every kind of statement end and statement start"""
     from . import seams as SM
-    cases = SM.emit(work, stats, '{"lastValue", "exprFlag"}')
+    cases = SM.emit(work, stats, '{"lastValue", "exprFlag", "lastCall", "modifierCond"}')
     jobs, meta = [], []
     for c in cases:
         base, with_f, r, n = SM.programs(c)
@@ -112,8 +112,13 @@ def seams_pass(v, work, stats, cfg):
             continue
         v.count("differences")
         key = "seam:%s->%s" % (c["fragEnd"], c["next"])
+        around = (c["fragEnd"], c["prev"])
         if c["next"] == "bracket-line":
             key = "Dev_BracketLineContinuesPreviousStatement"
+        elif c["next"] == "if-line" and (around[0] == "while-modifier") != (around[1] == "while-modifier"):
+            key = "Dev_WhileModifierConditionLeaks"
+        elif c["next"] in ("ternary-op-line", "arith-line") and (around[0] == "not-call") != (around[1] == "not-call"):
+            key = "Dev_NotCallLeaksLastCall"
         if v.seen(key):
             v.again(key)
             continue
